@@ -1,10 +1,176 @@
 import PhysisModel.Base.Proto
+import PhysisModel.Model.Cfg
+import PhysisModel.Model.Exl
+import PhysisModel.Spec.CfgText
+import PhysisModel.Spec.ExlText
+/-!
+C08 driver.  Case grammar (see `harness/src/c08.rs`):
+
+* `cfg <config> <edits> <probes>` — parse the documented file of `<config>`, observe, apply the
+  `set_value` sequence, observe again.
+* `cfgw <config> <presence>` — build the `ConfigFile` value directly (for a category without keys
+  the presence bit says whether the map holds an empty entry), write, parse back.
+* `exl <version> <rows> <probes>` / `exlw <version> <entries>` — same for Excel lists.
+
+`<config>` = `.` | categories separated by `;`, each `<name>{,<key>=<value>}`; `<edits>` = `.` |
+`<key>=<value>,…`; `<probes>` = `.` | `<hex>,…`; `<rows>` = `.` | `E<name>=<int>` / `C<text>`
+separated by `,`.  All text as hex of its UTF-8 bytes (`-` = empty).
+-/
 namespace Physis.Driver.C08
 open Physis Physis.Proto
+
+def hx (s : String) : Option Bytes := Bytes.ofHexFast s
+
+def listOf (s : String) (sep : String) : List String := if s == "." then [] else s.splitOn sep
+
+def parsePair (s : String) : Option (Bytes × Bytes) :=
+  match s.splitOn "=" with
+  | [k, v] => do pure (← hx k, ← hx v)
+  | _ => none
+
+def parseCategory (s : String) : Option Spec.Cfg.Category :=
+  match s.splitOn "," with
+  | [] => none
+  | n :: kvs => do pure (← hx n, ← kvs.mapM parsePair)
+
+def parseConfig (s : String) : Option Spec.Cfg.Config := (listOf s ";").mapM parseCategory
+def parseEdits (s : String) : Option (List (Bytes × Bytes)) := (listOf s ",").mapM parsePair
+def parseProbes (s : String) : Option (List Bytes) := (listOf s ",").mapM hx
+
+def showPair (e : Bytes × Bytes) : String := e.1.toHex ++ "=" ++ e.2.toHex
+def showConfig (c : Spec.Cfg.Config) : String :=
+  if c.isEmpty then "." else
+  ";".intercalate (c.map fun cat => ",".intercalate (cat.1.toHex :: cat.2.map showPair))
+def showEdits (l : List (Bytes × Bytes)) : String :=
+  if l.isEmpty then "." else ",".intercalate (l.map showPair)
+def showProbes (l : List Bytes) : String :=
+  if l.isEmpty then "." else ",".intercalate (l.map Bytes.toHex)
+def bit (b : Bool) : String := if b then "1" else "0"
+
+/-! ### configuration: specification answers -/
+
+def specQueries (c : Spec.Cfg.Config) (probes : List Bytes) : String :=
+  String.join (probes.map fun p =>
+    bit (decide (p ∈ Spec.Cfg.keysOf c)) ++ bit (decide (p ∈ Spec.Cfg.namesOf c)))
+
+def specCfg (c : Spec.Cfg.Config) (edits : List (Bytes × Bytes)) (probes : List Bytes) : String :=
+  let c' := Spec.Cfg.setValues c edits
+  "P[" ++ showConfig c ++ " x=0]|W0[same]|Q0[" ++ specQueries c probes ++
+  "]|E[" ++ showConfig c' ++ " x=0]|W1[" ++ (Spec.Cfg.encode c').toHex ++ "]|Q1[" ++ specQueries c' probes ++ "]|R[ok]"
+
+/-! ### configuration: answers of the model of the code -/
+
+/-- canonical dump of a `ConfigFile`, exactly as `harness/src/c08.rs` prints the real one -/
+def dumpCf (cf : Cfg.ConfigFile) : String :=
+  let v : Spec.Cfg.Config := cf.categories.map fun n =>
+    (n, match Cfg.get? cf.settings n with | some ks => ks | none => [])
+  let extra := (cf.settings.filter fun m => !cf.categories.contains m.1).length
+  showConfig v ++ " x=" ++ toString extra
+
+def modelQueries (cf : Cfg.ConfigFile) (probes : List Bytes) : String :=
+  String.join (probes.map fun p => bit (Cfg.hasKey cf p) ++ bit (Cfg.hasCategory cf p))
+
+def modelCfg (file : Bytes) (edits : List (Bytes × Bytes)) (probes : List Bytes) : String :=
+  match Cfg.parseCfg file with
+  | none => "panic"
+  | some cf =>
+    let w0 := Cfg.writeCfg cf
+    let cf' := edits.foldl (fun cf e => Cfg.setValue cf e.1 e.2) cf
+    let w1 := Cfg.writeCfg cf'
+    let r := match Cfg.parseCfg w1 with
+      | none => "panic"
+      | some cf2 => if dumpCf cf2 == dumpCf cf' then "ok" else "diff:" ++ dumpCf cf2
+    "P[" ++ dumpCf cf ++ "]|W0[" ++ (if w0 == file then "same" else w0.toHex) ++ "]|Q0[" ++ modelQueries cf probes ++
+    "]|E[" ++ dumpCf cf' ++ "]|W1[" ++ w1.toHex ++ "]|Q1[" ++ modelQueries cf' probes ++ "]|R[" ++ r ++ "]"
+
+/-- the `ConfigFile` value built directly for `cfgw` -/
+def buildCf (c : Spec.Cfg.Config) (presence : List Bool) : Cfg.ConfigFile :=
+  ⟨c.map (·.1), ((c.zip presence).filter fun cp => !cp.1.2.isEmpty || cp.2).map (·.1)⟩
+
+def modelCfgW (cf : Cfg.ConfigFile) : String :=
+  let w := Cfg.writeCfg cf
+  "W[" ++ w.toHex ++ "]|R[" ++ (match Cfg.parseCfg w with | none => "panic" | some cf2 => dumpCf cf2) ++ "]"
+
+/-! ### Excel lists -/
+
+def parseInt32 (s : String) : Option Int :=
+  match s.toInt? with
+  | some v => if -2147483648 ≤ v ∧ v ≤ 2147483647 then some v else none
+  | none => none
+
+def parseRow (s : String) : Option Spec.Exl.Row :=
+  match s.toList with
+  | 'E' :: rest =>
+    match (String.ofList rest).splitOn "=" with
+    | [n, i] => do pure (.entry (← hx n) (← parseInt32 i))
+    | _ => none
+  | 'C' :: rest => do pure (.comment (← hx (String.ofList rest)))
+  | _ => none
+
+def showEntries (es : List (Bytes × Int)) : String :=
+  if es.isEmpty then "." else ",".intercalate (es.map fun e => e.1.toHex ++ "=" ++ toString e.2)
+
+def exlAnswer (version : Int) (entries : List (Bytes × Int)) (written : Bytes) (cont : List Bool) (r : String) : String :=
+  "V[" ++ toString version ++ "]|E[" ++ showEntries entries ++ "]|W[" ++ written.toHex ++ "]|C[" ++
+    String.join (cont.map bit) ++ "]|R[" ++ r ++ "]"
+
+def specExl (f : Spec.Exl.ListFile) (probes : List Bytes) : String :=
+  let es := Spec.Exl.entriesOf f
+  exlAnswer f.version es (Spec.Exl.encode (Spec.Exl.stripComments f))
+    (probes.map fun p => decide (p ∈ es.map (·.1))) "ok"
+
+def modelExl (file : Bytes) (probes : List Bytes) : String :=
+  let e := Exl.parseExl file
+  let w := Exl.writeExl e
+  let e2 := Exl.parseExl w
+  exlAnswer e.version e.entries w (probes.map (Exl.contains e))
+    (if e2 == e then "ok" else "diff:" ++ toString e2.version ++ ":" ++ showEntries e2.entries)
+
+def modelExlW (e : Exl.EXL) : String :=
+  let w := Exl.writeExl e
+  let e2 := Exl.parseExl w
+  "W[" ++ w.toHex ++ "]|R[" ++ toString e2.version ++ ":" ++ showEntries e2.entries ++ "]"
 
 /-- one case line in, one answer line out (see `Base/Proto.lean`) -/
 def handle (line : String) : String :=
   match fields line with
+  | ["cfg", cs, es, ps] =>
+    match parseConfig cs, parseEdits es, parseProbes ps with
+    | some c, some edits, some probes =>
+      let file := Spec.Cfg.encode c
+      let triv := if c.isEmpty then ["triv"] else []
+      answer ("cfg " ++ file.toHex ++ " " ++ showEdits edits ++ " " ++ showProbes probes)
+        (specCfg c edits probes) triv (some (modelCfg file edits probes))
+    | _, _, _ => bad
+  | ["cfgw", cs, pr] =>
+    match parseConfig cs with
+    | some c =>
+      let bits := if pr == "." then some [] else pr.toList.mapM fun ch =>
+        if ch == '1' then some true else if ch == '0' then some false else none
+      match bits with
+      | some bits =>
+        if bits.length ≠ c.length then bad else
+        answer "=" ("W[" ++ (Spec.Cfg.encode c).toHex ++ "]|R[" ++ showConfig c ++ " x=0]")
+          (if c.isEmpty then ["triv"] else []) (some (modelCfgW (buildCf c bits)))
+      | none => bad
+    | none => bad
+  | ["exl", vs, rs, ps] =>
+    match parseInt32 vs, (listOf rs ",").mapM parseRow, parseProbes ps with
+    | some v, some rows, some probes =>
+      let f : Spec.Exl.ListFile := ⟨v, rows⟩
+      let file := Spec.Exl.encode f
+      answer ("exl " ++ file.toHex ++ " " ++ showProbes probes) (specExl f probes) []
+        (some (modelExl file probes))
+    | _, _, _ => bad
+  | ["exlw", vs, rs] =>
+    match parseInt32 vs, (listOf rs ",").mapM parseRow with
+    | some v, some rows =>
+      let f : Spec.Exl.ListFile := ⟨v, rows⟩
+      if Spec.Exl.stripComments f ≠ f then bad else
+      let es := Spec.Exl.entriesOf f
+      answer "=" ("W[" ++ (Spec.Exl.encode f).toHex ++ "]|R[" ++ toString v ++ ":" ++ showEntries es ++ "]") []
+        (some (modelExlW ⟨v, es⟩))
+    | _, _ => bad
   | _ => bad
 
 end Physis.Driver.C08
